@@ -19,6 +19,7 @@ import (
 	"time"
 
 	"github.com/open2b/scriggo"
+	"github.com/open2b/scriggo/native"
 
 	"verif/core"
 	"verif/gen/goconc"
@@ -64,11 +65,12 @@ func (prop) Drive(d *core.Driver) error {
 	var pats [][]string
 	for i := 0; i < n; i++ {
 		p := goconc.Generate(d.Rand(fmt.Sprintf("prog-%d", i)))
-		sources = append(sources, strings.Replace(p.Source, "package main\n\n", "package main\n\n"+gcref.InitMarker+"\n", 1))
+		// the init marker goes after the import declaration, before the first function
+		sources = append(sources, strings.Replace(p.Source, "func ", gcref.InitMarker+"\nfunc ", 1))
 		pats = append(pats, p.Patterns)
 	}
 	dir := filepath.Join(d.Scratch, "gc")
-	outs, err := gcref.RunN(goBin(), dir, sources, 8, 4)
+	outs, err := gcref.RunExtra(goBin(), dir, sources, 8, 4, map[string]string{"hostlib/hostlib.go": goconc.HostLibSource})
 	os.RemoveAll(dir)
 	if err != nil {
 		return err
@@ -125,7 +127,7 @@ func (prop) Work(c core.Case) core.Result {
 	var prog *scriggo.Program
 	var err error
 	v, panicked, stack := core.Guard(func() {
-		prog, err = scriggo.Build(scriggo.Files{"main.go": []byte(cd.Source)}, &scriggo.BuildOptions{AllowGoStmt: true})
+		prog, err = scriggo.Build(scriggo.Files{"main.go": []byte(cd.Source)}, &scriggo.BuildOptions{AllowGoStmt: true, Packages: hostLib()})
 	})
 	if panicked {
 		res.Status, res.Detail = core.Violation, fmt.Sprintf("Build panicked: %v\n--- source ---\n%s\n%s", v, cd.Source, stack)
@@ -184,6 +186,20 @@ func (prop) Work(c core.Case) core.Result {
 	mon.SetSchedule(0, false)
 	res.Counts["schedules_run"] = res.Evals
 	return res
+}
+
+// hostLib is the scriggo side of gen/goconc.HostLibSource.
+func hostLib() native.Packages {
+	return native.Packages{goconc.HostLibPath: native.Package{Name: "hostlib", Declarations: native.Declarations{
+		"Send": func(ch chan int, v int) { ch <- v },
+		"SendAll": func(ch chan int, vs ...int) {
+			for _, v := range vs {
+				ch <- v
+			}
+		},
+		"Add":   func(a, b int) int { return a + b },
+		"Label": func(s string, n int) string { return s + string(rune('a'+n%26)) },
+	}}}
 }
 
 func cpuMillis() int64 {
